@@ -8,7 +8,7 @@
     [sfx] / [sibling_fix]: the generator with / without fixes/C20-nla-sibling-dependencies.diff. *)
 From Coq Require Import List Bool Arith.
 From LC Require Import AnalysisDefs AnalysisSpec AnalysisOwnProofs ExternalDefs ExternalEmitProofs ExternalMarkProofs ExternalProofs ExternalWitness
-                       ExternalMsgProofs ExternalOwnProofs ExternalWitness2 ExternalNlaProofs ExternalDepsProofs.
+                       ExternalMsgProofs ExternalOwnProofs ExternalWitness2 ExternalNlaProofs ExternalDepsProofs ExternalDepsConvProofs.
 Import ListNotations.
 
 (** ** The model is C05's *)
@@ -457,6 +457,30 @@ Theorem C20_result_positions_distinct : forall fixed s marks r, xr_outcome (anal
 Proof. exact ExternalProofs.analysis_pos_nodup. Qed.
 Print Assumptions C20_result_positions_distinct.
 
-(* NOT PROVED: the converse inclusion (an EXTERNAL equation has NO other dependency than the equations of its declared
-   dependencies) and the link from [package] to every valid analysis result with its internal state spelled out (finish
-   calls package on the requalified internal variables); both compared with the library on every run (E= field). *)
+(** The converse: an EXTERNAL equation has NO other dependency — every dependency of it is an API equation ([k] is one of
+    the result's equations) of the analyser variable of a declared dependency of a variable it computes.  Together with
+    C20_declared_dependencies_are_equation_dependencies: the dependencies of a placeholder equation are EXACTLY the API
+    equations computing the declared dependencies. *)
+Theorem C20_equation_dependencies_are_declared : forall s ty voi ivs es,
+  let es3 := es ++ map (new_var_eq ivs) (filter (fun p => vtype_eqb (iv_type (geti ivs p)) VConstant) (seq 0 (length ivs))) in
+  let avs := make_avars es3 ivs 0 0 0 in
+  let r := package s ty voi ivs es in
+  forall e, In e (r_eqs r) -> ae_type e = QExternal ->
+  forall k, In k (ae_deps e) ->
+    In k (all_pos r) /\
+    exists p d a, In p (ie_unknown (gete es3 (ae_pos e))) /\ In d (iv_deps (geti ivs p)) /\
+                  dep_lookup dependency_fix s ivs avs d = Some a /\ In k (av_eqs a).
+Proof. exact ExternalDepsConvProofs.equation_dependencies_are_declared. Qed.
+Print Assumptions C20_equation_dependencies_are_declared.
+
+Example C20_equation_dependencies_example :
+  option_map (fun r => map (fun e => (ae_type e, ae_vars e, ae_deps e)) (filter (fun e => qtype_eqb (ae_type e) QExternal) (r_eqs r)))
+             (result_of (analyse_x true sysA mark_z_dep_y)) = Some [(QExternal, [(1, 1)], [1])] /\
+  option_map (fun r => map (fun e => (ae_type e, ae_vars e, ae_deps e)) (filter (fun e => qtype_eqb (ae_type e) QExternal) (r_eqs r)))
+             (result_of (analyse_x true sysA mark_k)) = Some [(QExternal, [(0, 2)], [])].
+Proof. exact ExternalDepsConvProofs.converse_example. Qed.
+Print Assumptions C20_equation_dependencies_example.
+
+(* NOT PROVED: the link from [package] to every valid analysis result with its internal state spelled out (finish calls
+   package on the requalified internal variables: which unknowns an external equation has is the placeholder clause, see
+   C20_placeholder_refuted / C20_one_definer_with_externals); compared with the library on every run (E= field). *)
